@@ -441,6 +441,133 @@ func init() {
 			}
 		}, nil
 	}
+	// more claims types of the user's through sign -> decode -> verify: the wide profile with 10..26 claims present (the
+	// head of the claims map changes form at 24), wrapper types around profile-1 and profile-2 claims in either first-use order
+	Scenarios["c03.more-derived-types"] = func() (choice.Scenario, func() any) {
+		k := fixtures.Get("ES256", 1)
+		roundTrip := func(c *choice.Ctx, tag string, x psatoken.IClaims, inner psatoken.IClaims, check func(y psatoken.IClaims) string) {
+			ev := &psatoken.Evidence{}
+			if err := ev.SetClaims(x); err != nil {
+				c.Failf("C03:setclaims:"+tag, "%v", err)
+				return
+			}
+			tok, err := ev.ValidateAndSign(k.Signer())
+			c03stats.Trans.Add(3)
+			if err != nil {
+				c.Failf("C03:sign-error:"+tag, "%v", err)
+				return
+			}
+			ev2, derr := psatoken.DecodeAndValidateEvidenceFromCOSE(tok)
+			if derr != nil {
+				c.Failf("C03:decode-error:"+tag, "%v", derr)
+				return
+			}
+			if g1, g2 := getterVector(inner), getterVector(ev2.Claims); g1 != g2 {
+				c.Failf("C03:claims-differ:"+tag, "orig    %s\ndecoded %s", g1, g2)
+			}
+			if check != nil {
+				if msg := check(ev2.Claims); msg != "" {
+					c.Failf("C03:claims-differ:added-claims:"+tag, "%s", msg)
+				}
+			}
+			if ev2.Verify(k.Pub) != nil {
+				c.Failf("C03:verify-decoded:"+tag, "does not verify")
+			}
+		}
+		return func(c *choice.Ctx) {
+			stamp := int64(1721138454)
+			switch which := c.Choose("type", 3); which {
+			case 0:
+				extras := c.Choose("vendor-claims", 17)
+				a := genValidOpt(&choice.Ctx{}, kindP2, false, true)
+				a.Canon, a.Profile = ExtWideName, sp(ExtWideName)
+				x, err := realise(a)
+				if err != nil {
+					return
+				}
+				w := x.(*ExtWideClaims)
+				w.SetExtras(extras)
+				tag := fmt.Sprintf("wide-profile:%d-vendor-claims", extras)
+				c03stats.StateStr(tag)
+				roundTrip(c, tag, w, w, func(y psatoken.IClaims) string {
+					if yw, ok := y.(*ExtWideClaims); !ok || yw.Extras() != w.Extras() {
+						return fmt.Sprintf("decoded as %T, vendor claims differ", y)
+					}
+					return ""
+				})
+			default:
+				order := [][]int{{kindP1, kindP2, kindP1}, {kindP2, kindP1, kindP2}}[which-1]
+				for i, kind := range order {
+					a := genValidOpt(c, kind, false, true)
+					x, err := buildBySetters(a)
+					if err != nil {
+						return
+					}
+					var w psatoken.IClaims
+					if which == 1 {
+						w = &WrapOf[tagC03a]{IClaims: x, Stamp: &stamp}
+					} else {
+						w = &WrapOf[tagC03b]{IClaims: x, Stamp: &stamp}
+					}
+					tag := fmt.Sprintf("%s:wrapper-type-%d:use-%d", kindNames[kind], which, i)
+					c03stats.StateStr(tag + a.String())
+					roundTrip(c, tag, w, x, nil)
+				}
+			}
+		}, nil
+	}
+	// what the signer hands back is an environment answer: correct raw ECDSA signatures whose BYTES look like something
+	// else (the head of an ASN.1 DER SEQUENCE; leading zero bytes in r or s) are signatures like any other
+	Scenarios["c03.signature-byte-looks"] = func() (choice.Scenario, func() any) {
+		return func(c *choice.Ctx) {
+			algName := []string{"ES256", "ES384"}[c.Choose("alg", 2)]
+			look := c.Choose("signature-looks-like", 3)
+			validating := c.Choose("entry", 2) == 0
+			kind := c.Choose("profile", 2)
+			key := fixtures.Get(algName, 1)
+			a := genValidOpt(&choice.Ctx{}, kind, false, true)
+			x, err := buildBySetters(a)
+			if err != nil {
+				return
+			}
+			tag := fmt.Sprintf("%s:%s:signature-look-%d:validating=%v", kindNames[kind], algName, look, validating)
+			c03stats.StateStr(tag)
+			ev := &psatoken.Evidence{}
+			if err := ev.SetClaims(x); err != nil {
+				return
+			}
+			var tok []byte
+			if validating {
+				tok, err = ev.ValidateAndSign(fixedNonceSigner{key, algName, look})
+			} else {
+				tok, err = ev.Sign(fixedNonceSigner{key, algName, look})
+			}
+			c03stats.Trans.Add(2)
+			if err != nil {
+				c.Failf("C03:sign-error:"+tag, "signing a valid claims-set with a correct signer failed: %v", err)
+				return
+			}
+			v, perr := viewSign1(tok)
+			if perr != nil || len(v.strict) > 0 {
+				c.Failf("C03:envelope-shape:"+tag, "%v %v", perr, v)
+				return
+			}
+			if !rawVerify(algName, key.Pub, v.prot, v.payload, v.sig) {
+				c.Failf("C03:signature-invalid:"+tag, "the token's signature is not the signer's over the Sig_structure (%x)", clip(v.sig))
+			}
+			ev2, derr := psatoken.DecodeAndValidateEvidenceFromCOSE(tok)
+			if derr != nil {
+				c.Failf("C03:decode-error:"+tag, "%v", derr)
+				return
+			}
+			if verr := ev2.Verify(key.Pub); verr != nil {
+				c.Failf("C03:verify-decoded:"+tag, "%v", verr)
+			}
+			if g1, g2 := getterVector(x), getterVector(ev2.Claims); g1 != g2 {
+				c.Failf("C03:claims-differ:"+tag, "orig    %s\ndecoded %s", g1, g2)
+			}
+		}, nil
+	}
 	// long component lists through sign -> decode -> verify (what the encoder emits the decoder must take back)
 	Scenarios["c03.many-components"] = func() (choice.Scenario, func() any) {
 		return func(c *choice.Ctx) {
@@ -475,6 +602,8 @@ func init() {
 		exploreChoice(r, "c03.many-components", -1, dl)
 		exploreChoice(r, "c03.rsa-key-sizes", -1, dl)
 		exploreChoiceOpts(r, "c03.derived-profiles", -1, dl, 1)
+		exploreChoiceOpts(r, "c03.more-derived-types", 1, dl, 1)
+		exploreChoice(r, "c03.signature-byte-looks", -1, dl)
 		encStats = c03stats // the scenario is shared with C09/C12 and counts there
 		exploreChoiceOpts(r, "c03.same-name-claim-types", 1, dl, 1)
 		for kind := 0; kind < 3; kind++ {
